@@ -489,6 +489,14 @@ func generateProtectedHeaders(req *signature.SignRequest, protected cose.Protect
 
 	// extended attributes
 	for _, elm := range req.ExtendedSignedAttributes {
+		switch elm.Key.(type) {
+		case string, int, int8, int16, int32, int64, uint, uint8, uint16, uint32, uint64:
+			// COSE header labels are text strings or integers
+		default:
+			// other types cannot be represented as a COSE label; unhashable
+			// ones (slices, maps) would even panic when used as a map key
+			return &signature.InvalidSignRequestError{Msg: fmt.Sprintf("extended attribute key of type %T is not supported, COSE header labels are text strings or integers", elm.Key)}
+		}
 		if _, ok := protected[elm.Key]; ok {
 			return &signature.InvalidSignRequestError{Msg: fmt.Sprintf("%q already exists in the protected header", elm.Key)}
 		}
